@@ -198,7 +198,7 @@ def run_unit(path, scratch, mutate=None, extra_name=''):
         u = unitmod.build(path, mutate)
         res.unit = u
         res.name = u.get('unit', name) + extra_name
-        timeout = int(u.get('timeout', '300'))
+        timeout = int(os.environ.get('VERIF_TIMEOUT') or u.get('timeout', '300'))
         binary = build_binary(u, workdir, res.cmds, timeout)
         res.binary = binary
     except cxx.ExtractError as e:
